@@ -63,41 +63,65 @@ func Harness_P14() {
 	rq, facts := pipeAnalysePkg("m/q", "q.go", dep, nil)
 	rp, _ := pipeAnalysePkg("m/p", "p.go", src, []pipeDep{{path: "m/q", file: "q.go", src: dep, facts: facts}})
 	for _, r := range []pipeResult{rq, rp} {
-		for _, d := range r.diags {
-			ndObserveStr("diag", d.Message)
-			ndAssert("C14.X1.position_is_valid", d.Pos > 0)
-			pos := r.fset.Position(d.Pos)
-			ndObserveStr("position", pos.String())
-			ndAssert("C14.X1.position_resolves_to_an_existing_line_of_the_analysed_sources", p14Exists(sources, pos.Filename, pos.Line, pos.Column))
-			steps := 0
-			last := ""
-			for _, line := range strings.Split(d.Message, "\n") {
-				if !strings.HasPrefix(line, "\t- ") {
-					continue
-				}
-				steps++
-				last = ""
-				rest := line[len("\t- "):]
-				if strings.HasPrefix(rest, "<no pos info>") {
-					continue
-				}
-				// "file:line:col: text"
-				k := strings.Index(rest, ": ")
-				if k < 0 {
-					ndAssert("C14.X3.flow_step_has_a_position_or_says_it_has_none", false)
-					continue
-				}
-				f, l, c, ok := p14ParsePos(rest[:k])
-				ndAssert("C14.X3.flow_step_position_is_well_formed", ok)
-				if ok {
-					ndAssert("C14.X3.flow_step_names_an_existing_file_line_column", p14Exists(sources, f, l, c))
-					last = rest[:k]
-				}
+		p14CheckDiags(r, sources)
+	}
+}
+
+// p14CheckDiags states C14.X1-X4 for every diagnostic of one analysis result.
+func p14CheckDiags(r pipeResult, sources map[string][]string) {
+	for _, d := range r.diags {
+		ndObserveStr("diag", d.Message)
+		ndAssert("C14.X1.position_is_valid", d.Pos > 0)
+		pos := r.fset.Position(d.Pos)
+		ndObserveStr("position", pos.String())
+		ndAssert("C14.X1.position_resolves_to_an_existing_line_of_the_analysed_sources", p14Exists(sources, pos.Filename, pos.Line, pos.Column))
+		steps := 0
+		last := ""
+		for _, line := range strings.Split(d.Message, "\n") {
+			if !strings.HasPrefix(line, "\t- ") {
+				continue
 			}
-			ndAssert("C14.X2.message_lists_at_least_one_flow_step", steps > 0)
-			if last != "" {
-				ndAssert("C14.X4.last_positioned_step_is_the_reported_position", last == pos.Filename+":"+strconv.Itoa(pos.Line)+":"+strconv.Itoa(pos.Column))
+			steps++
+			last = ""
+			rest := line[len("\t- "):]
+			if strings.HasPrefix(rest, "<no pos info>") {
+				continue
+			}
+			// "file:line:col: text"
+			k := strings.Index(rest, ": ")
+			if k < 0 {
+				ndAssert("C14.X3.flow_step_has_a_position_or_says_it_has_none", false)
+				continue
+			}
+			f, l, c, ok := p14ParsePos(rest[:k])
+			ndAssert("C14.X3.flow_step_position_is_well_formed", ok)
+			if ok {
+				ndAssert("C14.X3.flow_step_names_an_existing_file_line_column", p14Exists(sources, f, l, c))
+				last = rest[:k]
 			}
 		}
+		ndAssert("C14.X2.message_lists_at_least_one_flow_step", steps > 0)
+		if last != "" {
+			ndAssert("C14.X4.last_positioned_step_is_the_reported_position", last == pos.Filename+":"+strconv.Itoa(pos.Line)+":"+strconv.Itoa(pos.Column))
+		}
 	}
+}
+
+// Harness_P14S: the same obligations for a source file that consists of a SINGLE line (a file without a second
+// line start gives the diagnostic engine no gap between line starts to tell it from an importer-made stand-in).
+func Harness_P14S() {
+	var src string
+	switch ndChoice("program", 3) {
+	case 0:
+		src = "package p; func f() int { var x *int; return *x }"
+	case 1:
+		src = "package p; var g *int; func f() int { return *g }"
+	default:
+		src = "package p; func h(a *int) int { return *a }; func f() int { return h(nil) }"
+	}
+	ndObserveStr("source", src)
+	r := pipeAnalyse(src)
+	ndObserveInt("diagnostics", len(r.diags))
+	ndAssert("C14.X0.the_single_line_program_is_reported", len(r.diags) > 0)
+	p14CheckDiags(r, map[string][]string{"p.go": strings.Split(src, "\n")})
 }
